@@ -194,11 +194,16 @@ def assign(
             raise TypeError("Unsupported assignment lhs: {} rhs: {}".format(lhs, rhs))
 
         # If a single-value structure, assign its only field
+        # (a field of a View has an explicitly defined shape, as in `rec_call`)
         while lhs_fields is not None and len(lhs_fields) == 1:
-            lhs = lhs[next(iter(lhs_fields))]  # type: ignore
+            field = lhs[next(iter(lhs_fields))]  # type: ignore
+            lhs_strict = lhs_strict or (isinstance(lhs, ValueLike) and not isinstance(field, int))
+            lhs = field
             lhs_fields = assign_arg_fields(lhs)
         while rhs_fields is not None and len(rhs_fields) == 1:
-            rhs = rhs[next(iter(rhs_fields))]  # type: ignore
+            field = rhs[next(iter(rhs_fields))]  # type: ignore
+            rhs_strict = rhs_strict or (isinstance(rhs, ValueLike) and not isinstance(field, int))
+            rhs = field
             rhs_fields = assign_arg_fields(rhs)
 
         def has_explicit_shape(val: ValueLike):
